@@ -30,6 +30,9 @@ CONSTANTS
                        \* item differs from the one in the document (same id with another mode or other content, an item
                        \* with the empty id, an item with the empty id that was removed)
   IncOf(_),            \* incarnation number the host gives the key with a guid (0: none)
+  StatusInc,           \* incarnation number the status document carries for the latched key (0: none); the host may state it
+                       \* in the status document, in the key document, in both, or number them differently
+  LocalNeedsIncarnationMatch, \* TRUE: a design variant that uses a local key file only if its incarnation equals StatusInc
   KeepHigherIncarnation, \* TRUE: a design variant in which the key in memory is not replaced by one of a lower incarnation
   ReuseUnattested,     \* TRUE: a design variant that keeps an acquired, not yet attested key across polls and goes
                        \* straight to the attestation with it on the next poll (no store, no read-back again)
@@ -218,7 +221,7 @@ NeedKey ==
 
 FetchLocal ==    \* look for <named guid>.key in the key directory, read and parse it
   /\ pc = "FetchLocal"
-  /\ IF FileIn(fs, Status.named) = "key"
+  /\ IF FileIn(fs, Status.named) = "key" /\ (LocalNeedsIncarnationMatch => IncOf(Status.named) = StatusInc)
      THEN loc' = [loc EXCEPT !.key = Status.named] /\ pc' = "UpdateKeyLocal" /\ Did("FetchLocal", "ok", Status.named)
      ELSE pc' = "Acquire" /\ UNCHANGED loc /\ Did("FetchLocal", "absent", Status.named)
   /\ UNCHANGED <<host, fs, mem, policy, gh>>
